@@ -123,6 +123,8 @@ impl Iterator for AnsiElementIterator<'_> {
 impl anstyle_parse::Perform for Performer {
     fn csi_dispatch(&mut self, params: &Params, intermediates: &[u8], ignore: bool, byte: u8) {
         if ignore || intermediates.len() > 1 {
+            // Not interpreted, but its bytes are still an escape sequence and not text.
+            self.element = Some(Element::Csi(0, 0));
             return;
         }
 
